@@ -68,17 +68,19 @@ PROPS = {
         'explanation': 'fee bounds and never-past-the-peg proved for bond, unbond, convert stSei->bSei; convert bSei->stSei proved under the exact cap (D2 is the code not respecting it)',
     },
     'C06': {
+        'corpus': ['eleven-batches-slashed-release.ops'],
         'families': [gen('pricing', 30, 120), gen('release', 20, 120), gen('dust', 15, 120), gen('drain', 20, 120)],
         'slice': [r'hub\.check', r'env\.slash', r'env\.slashu', r'hub\.withdraw'] + PRICING_KINDS,
         'explanation': 'exact recognition and two-sided pro-rata bounds proved (nlinarith over the order of floors in query_actual_state and calculate_new_withdraw_rate); every CheckSlashing on the implementation is compared with the exact shares',
     },
     'C17': {
-        'corpus': ['D3.ops', 'large-reward-odd-price.ops', 'dispatcher-config-resend-and-bounds.ops'],
+        'corpus': ['D3.ops', 'large-reward-odd-price.ops', 'dispatcher-config-resend-and-bounds.ops', 'swap-denom-reregistered-ibc-spelling.ops'],
         'families': [pure('swapinfo', 10000, thorough_scale={'count': 80000}), gen('rewards', 30, 120), gen('admin', 10, 100)],
         'slice': [r'f\.swapinfo', r'hub\.ugi', r'disp\..*', r'inst\.disp'],
         'explanation': 'swap decision and dispatch split proved for all balances/prices/rates; get_swap_info driven through the real SwapToRewardDenom with fixed balances over the whole price range [1e-18,1e18]; whole index updates on the minichain',
     },
     'C10': {
+        'corpus': ['dispatcher-repoint-with-keeper-settings.ops'],
         'families': [gen('deploy', 25, 60), matrix('c10'), gen('admin', 15, 100), gen('mixed', 10, 100)],
         'slice': [r'hub\..*', r'tok\..*', r'reward\..*', r'disp\..*', r'reg\..*'],
         'exhaustive': True,
@@ -142,7 +144,7 @@ PROPS = {
         'explanation': 'registry removal / hub proxy / chain redelegation proved step by step (plan sums to the whole delegation via C12, targets still registered); end-to-end RemoveValidator transactions on the minichain with pending rewards, in-flight batches, blocked redelegations, removal and re-addition sequences',
     },
     'C19': {
-        'corpus': ['D3.ops', 'large-reward-odd-price.ops'],
+        'corpus': ['D3.ops', 'large-reward-odd-price.ops', 'index-update-with-whole-stsei-supply-unbonding.ops'],
         'families': [gen('rewards', 40, 120), gen('registry', 15, 120), gen('mixed', 15, 120)],
         'slice': [r'hub\.ugi', r'disp\..*', r'reward\.ugi', r'hub\.bondrw', r'reg\.remove', r'env\.accrue'],
         'explanation': 'hub / distribution / dispatcher / re-bond / reward-index steps proved separately and composed; whole UpdateGlobalIndex transactions (incl. those triggered by validator removal) on the minichain: pending rewards zero afterwards, dispatcher empty, stSei pool up by exactly the re-bonded amount, no mint, claims and hub balance untouched, accrued grows by the delivered amount within dust',
